@@ -187,7 +187,7 @@ def _jobs(tier):
     if tier == 'quick':
         add(n=3, t=2, kind='T1', side='long', exch='futures')
         add(n=3, t=1, kind='T7', side='long', exch='futures')
-        add(n=6, t=3, kind='T1', side='long', exch='futures', tf='3m', fast=True, sym=[1, 2, 4])
+        add(n=6, t=3, kind='T1', side='long', exch='futures', tf='3m', fast=True, sym=[2, 3])  # the first replaced minute may gap
     else:
         for side in ('long', 'short'):
             for kind in ('T1', 'T1tp', 'T7', 'T5'):
